@@ -60,6 +60,18 @@ def bnEval : Nat → TEnv → AST → Option TVal
               | some (.int x), some (.int y) => some (.int (x + y))
               | _, _ => none)
            | _ => none)
+        else if encodeNumber n = [0] then
+          (match args with
+           | [a1, a2] => (match bnEval fuel ρ a1, bnEval fuel ρ a2 with
+              | some (.int x), some (.int y) => some (.int (x * y))
+              | _, _ => none)
+           | _ => none)
+        else if encodeNumber n = [7] then
+          (match args with
+           | [a1, a2] => (match bnEval fuel ρ a1, bnEval fuel ρ a2 with
+              | some (.int x), some (.int y) => some (.bool (decide (x < y)))
+              | _, _ => none)
+           | _ => none)
         else none
       | none =>
         match bnEval fuel ρ f with
